@@ -145,7 +145,67 @@ func succTypeFacts(h *ssa.Function, depth int) map[string]bool {
 	return common
 }
 
+// checkGzipTrailerAlwaysWritten: the call that terminates the gzip stream ((*gzip.Writer).Close, which
+// writes header and trailer even for an empty body) is reached whenever the compressing writer is
+// closed with a live gzip writer: the conditions on the way to it are nil tests or tests of a flag
+// the closing function itself sets (its run-once guard).  A condition on state maintained elsewhere
+// ("something was written") leaves an empty compressed body without a gzip stream; the reader then
+// fails to inflate it.
+func checkGzipTrailerAlwaysWritten(r *Report) {
+	n := 0
+	for _, f := range r.P.FuncsIn("internal/stream/compression") {
+		for _, u := range WithAnon(f) {
+			for _, c := range Calls(u, false, "gzip:Writer.Close") {
+				n++
+				outer := Outermost(u)
+				storedHere := map[string]bool{}
+				for _, w := range WithAnon(outer) {
+					Instrs(w, func(in ssa.Instruction) {
+						if st, ok := in.(*ssa.Store); ok {
+							if _, fld, _, ok := FieldOf(st.Addr); ok {
+								storedHere[fld] = true
+							}
+						}
+					})
+				}
+				facts := FactsAt(c)
+				// an anonymous function called in place: the conditions at its call site count as well
+				if u != outer {
+					Instrs(u.Parent(), func(in ssa.Instruction) {
+						if ci, ok := in.(ssa.CallInstruction); ok {
+							if mc, ok := ci.Common().Value.(*ssa.MakeClosure); ok && mc.Fn == ssa.Value(u) {
+								facts = append(facts, FactsAt(in)...)
+							}
+							if fn, ok := ci.Common().Value.(*ssa.Function); ok && fn == u {
+								facts = append(facts, FactsAt(in)...)
+							}
+						}
+					})
+				}
+				bad := ""
+				for _, ft := range facts {
+					if _, _, isNil := NilTest(ft.Cond); isNil {
+						continue
+					}
+					if _, fld, _, ok := FieldOf(ft.Cond); ok && storedHere[fld] {
+						continue
+					}
+					if cc, _ := CallOfValue(ft.Cond); cc != nil {
+						continue // a helper's verdict (IsClosed()): not evaluated
+					}
+					bad = originSummary(ft.Cond)
+				}
+				r.Ob("R-C01-2", CallPos(c), bad == "", "closing the compressing writer always terminates the gzip stream (conditions on the way: nil tests and the run-once flag of the closing function"+map[bool]string{true: "", false: "; found a condition on " + bad}[bad == ""]+"): an empty body still gets header and trailer", r.P.FuncName(outer), "gzip-trailer-always-written")
+			}
+		}
+	}
+	if n < 1 {
+		r.Fail("R-C01-2", 0, "no (*gzip.Writer).Close call found in internal/stream/compression (1 confirmed by hand)", "compression", "gzip-trailer-always-written:floor")
+	}
+}
+
 func runC01(r *Report) {
+	checkGzipTrailerAlwaysWritten(r)
 	const pkg = "internal/stream"
 	readPacket := r.need("R-C01-1", pkg, "StreamProcessor.ReadPacket")
 	writePacket := r.need("R-C01-2", pkg, "StreamProcessor.WritePacket")
